@@ -38,6 +38,9 @@ type Run struct {
 	start  time.Time
 	seen   map[string]bool
 	stats  map[string]int
+
+	// Remap substitutes build configurations (thorough tier: second pass of the same rules under the CI tags).
+	Remap map[string]string
 }
 
 // NewRun creates a run.
@@ -55,6 +58,9 @@ func (r *Run) Prog(cfg string) *Prog { return r.ProgFor(cfg) }
 
 // ProgFor is Prog restricted to the packages matching patterns (default ./...).
 func (r *Run) ProgFor(cfg string, patterns ...string) *Prog {
+	if m, ok := r.Remap[cfg]; ok {
+		cfg = m
+	}
 	key := cfg + "|" + strings.Join(patterns, ",")
 	if p, ok := r.progs[key]; ok {
 		r.cur = p
